@@ -75,6 +75,9 @@ class Alg:
 def cls_of(v, what='operand'):
     if isinstance(v, FV): return v.cls
     if is_c(v): return v
+    if z3.is_expr(v) and z3.is_bv(v) and v.size() == 64:
+        from . import bv2int
+        return bv2int.IntOfBV(v)          # an exact word used as a field value: its class is its unsigned value
     raise Unsupported('bit-level word used as a field value (%s): %r' % (what, type(v)))
 
 def wrap(c): return c if is_c(c) else FV(c)
